@@ -759,6 +759,59 @@ fn check_sem_case(ctx: &mut Ctx, w: &World, g: &Gen, q: &Q, text: &str) {
     }
 }
 
+/// tokens of a random well-formed operand (`WFOpd`) for the Lean printer
+fn lean_opd_tokens(rng: &mut Rng, depth: u32, out: &mut Vec<String>) {
+    const VOC: &[&str] = &["a", "b", "abc", "x1", "ANDROID", "ORx", "NOTE", "INDIA", "IN2", "AN", "O", "NO", "42", "Zed", "andor"];
+    if depth == 0 || rng.chance(3, 5) {
+        out.push("w".into());
+        out.push(crate::model::hex(rng.pick(VOC).as_bytes()));
+        return;
+    }
+    let n = rng.usize_below(4);
+    out.push("g".into());
+    out.push(rng.below(3).to_string());
+    out.push(rng.pick(&["-", "-", "m", "x", "s"]).to_string());
+    out.push(rng.below(3).to_string());
+    out.push(n.to_string());
+    lean_opd_tokens(rng, depth - 1, out);
+    for _ in 0..n {
+        out.push(rng.pick(&["-", "a", "o"]).to_string());
+        out.push(rng.pick(&["-", "-", "m", "x", "s"]).to_string());
+        out.push(rng.below(3).to_string());
+        out.push(rng.below(3).to_string());
+        lean_opd_tokens(rng, depth - 1, out);
+    }
+}
+
+/// nested operand lists printed by the Lean printer of `C16_print_parse_nested`
+fn check_lean_printed_nested(ctx: &mut Ctx, w: &World) {
+    let mut rng = ctx.rng.fork();
+    let n = rng.usize_below(4);
+    let mut toks: Vec<String> = vec![rng.below(3).to_string(), rng.pick(&["-", "-", "m", "x", "s"]).to_string(), rng.below(3).to_string(), n.to_string()];
+    lean_opd_tokens(&mut rng, 3, &mut toks);
+    for _ in 0..n {
+        toks.push(rng.pick(&["-", "a", "o"]).to_string());
+        toks.push(rng.pick(&["-", "-", "m", "x", "s"]).to_string());
+        toks.push(rng.below(3).to_string());
+        toks.push(rng.below(3).to_string());
+        lean_opd_tokens(&mut rng, 3, &mut toks);
+    }
+    let req = format!("C16 printt {}", toks.join(","));
+    let resp = ctx.model.ask(&req);
+    let text = match crate::model::unhex(&resp).and_then(|b| String::from_utf8(b).ok()) {
+        Some(t) => t,
+        None => {
+            ctx.report.violation("model", "C16:model-rejects-request", format!("model rejects {req}: {resp}"), json!({"kind": "printt", "req": req}));
+            return;
+        }
+    };
+    ctx.report.case(&format!("lean-printed-nested|{text}"), text.contains('('));
+    if parse_query(&text).is_err() {
+        ctx.report.violation("model", "C16:lean-printed-text-rejected", format!("the strict parser rejects the text printed by the Lean printer: {text:?}"), json!({"kind": "string", "text": text, "origin": "lean-printed"}));
+    }
+    check_string(ctx, w, &text, "lean-printed-nested");
+}
+
 /// the Lean printer of `C16_print_parse_operands`: operand lists of plain words printed by the
 /// model with random layout; the real parsers and the Lean parsers are compared on that text
 fn check_lean_printed(ctx: &mut Ctx, w: &World) {
@@ -1077,6 +1130,7 @@ pub fn run(ctx: &mut Ctx) {
     if on("b") {
         for _ in 0..ctx.budget(400, 20_000) {
             check_lean_printed(ctx, &w);
+            check_lean_printed_nested(ctx, &w);
         }
     }
 
